@@ -25,7 +25,7 @@ Translate the header above the HiFiber loop nest
 """
 
 from sympy import Symbol  # type: ignore
-from typing import Iterable, Optional, Set
+from typing import Iterable, List, Optional, Set, Union
 
 from teaal.hifiber import *
 from teaal.ir.metrics import Metrics
@@ -194,6 +194,22 @@ class Header:
             # TODO: Test that this removes the partitioning
             unpart_ranks = [part.get_root_name(
                 rank) for rank in output.get_ranks()]
-            args.append(TransUtils.build_shape(unpart_ranks))
+
+            # The extent of a flattened rank is the product of the extents of
+            # the ranks flattened together
+            shape: List[Union[str, Expression]] = []
+            for root in unpart_ranks:
+                if not part.is_flattened(root):
+                    shape.append(root)
+                    continue
+
+                extents = [part.get_root_name(src)
+                           for src in part.unpack(root)]
+                extent: Expression = EVar(extents[0])
+                for src_root in extents[1:]:
+                    extent = EBinOp(extent, OMul(), EVar(src_root))
+                shape.append(extent)
+
+            args.append(TransUtils.build_shape(shape))
 
         return args
